@@ -22,9 +22,14 @@ def _qs(tag, L, tier, U, sh):
       dict(name='float_env_len%d' % L, harness=tag, entry='h_float_env', unwind=U, tier=tier, timeout=900, shape='unset or ' + sh + '; strtof nondeterministic'),
     ]
 QUERIES = []
+# measured on the final tree (thorough tier, 16 cores): lengths 0..5 are decided in the 900 s budget for all five readers; from length 6
+# the duration readers, and from length 9 the uint reader, get no verdict in 900 s - those lengths are not registered
 for L in range(0, 11):
     HARNESSES['c18_%d' % L] = h(L)
-    QUERIES += qs('c18_%d' % L, L, 'quick' if L in (0, 2, 4) else 'thorough')
+    for q in qs('c18_%d' % L, L, 'quick' if L in (0, 2, 4) else 'thorough'):
+        if L >= 6 and (q['name'].startswith('timeout_from_string_len') or q['name'].startswith('duration_env_len')): continue
+        if L >= 9 and q['name'].startswith('uint_env_len'): continue
+        QUERIES.append(q)
 UNITS = [('', 1000000000), ('ns', 1), ('us', 1000), ('ms', 1000000), ('s', 1000000000), ('m', 60000000000), ('h', 3600000000000)]
 for nd in (1, 3, 7, 10, 19):
     for (u, f) in UNITS:
@@ -34,7 +39,7 @@ for nd in (1, 3, 7, 10, 19):
         QUERIES.append(dict(name='timeout_exact_%ddigits_%s' % (nd, u or 'nounit'), harness=tag, entry='h_timeout_exact', unwind=nd + 4, timeout=900,
                             tier='quick' if quick else 'thorough', solvers=['cadical', 'minisat'],
                             shape='%d space(s), %d symbolic digits, unit "%s"' % (nd % 2, nd, u)))
-BOUNDS = ['environment strings of every length 0..10 (quick: 0, 2, 4), every byte symbolic, one query per length', 'exact duration value: fixed shapes of 1..19 digits x 7 units']
+BOUNDS = ['environment strings of every length 0..5 for the duration readers, 0..8 for the uint reader, 0..10 for the bool and float readers (quick: 0, 2, 4), every byte symbolic, one query per length', 'exact duration value: fixed shapes of 1..19 digits x 7 units']
 OUTSIDE = ['Resource::Create/Merge and OTELResourceDetector (istringstream, std::unordered_map): not encoded',
            'strtof value semantics (model returns arbitrary value/end/ERANGE; only the caller logic is checked)',
            'internal log statements compiled out with the SDK option OTEL_INTERNAL_LOG_LEVEL=0']
